@@ -13,7 +13,10 @@ an `*Edge` object being shared between `Src.Out[Dest]` and `Dest.In[Src]`.  The 
 
 The two tables are updated separately, statement by statement as the Go code does (`delete(child.In,
 cur)` touches only `ins`, `delete(parent.Out, cur)` only `outs`, …); Go leaves stale entries in the
-maps of nodes it drops from `g.Nodes` and so does the model.  That the two views agree on every node
+maps of nodes it drops from `g.Nodes` (`cur.In[parent]`, `cur.Out[child]`) and so does the model
+(through Go's stale `cur.Out[child]` the shared `*Edge` shows its new Src/Residual, the model's stale
+entry keeps the old flag: nothing reads either — only `g.Nodes` is reachable afterwards, and the
+theorems and the correspondence speak about listed nodes only).  That the two views agree on every node
 that is still listed is a theorem (Props/C05 `trimTree_marks_residual`), not an assumption.
 `TNode` / `TState.view` is the call-tree node as a report sees it afterwards: key, figures, parents
 (`In`) and children (`Out`).
